@@ -189,3 +189,60 @@ Theorem C09_rate_matrix_time_rescaling_unbounded :
 Proof. exact rate_matrix_time_rescaling. Qed.
 Print Assumptions C09_rate_matrix_time_rescaling_unbounded.
 End C09_unbounded.
+
+(* ------------------------------------------------------------------------------------------------
+   The rescaling law stated DIRECTLY about the translated source, on ANY piecewise-constant demography
+   (analysis/SourceScaling.v; gen/LoopsGen.v is regenerated from phasegen/distributions.py on every run): every change time
+   multiplied by a rational c > 0, every rate matrix divided by c (C09_rate_matrix_time_rescaling_unbounded above;
+   C09_divided_matrix_meets_hypothesis turns "divided entry by entry" into the hypothesis used here):
+
+   C09_source_cdf_time_rescaling          cdf'(c t) = cdf(t)
+   C09_source_accumulate_time_rescaling   acc'_k(c t) = c^k acc_k(t), every order k, reward tuple and list of times *)
+
+From PG Require Import model.Loop analysis.Denote gen.NpLoops gen.LoopsGen analysis.SourceScaling.
+Local Notation Q2R := Rdefinitions.Q2R.
+Local Notation Q0 := (QArith_base.Qmake BinNums.Z0 BinNums.xH).
+
+Theorem C09_divided_matrix_meets_hypothesis :
+  forall (n : nat) (a : R) (S : seq (seq R)), a != 0 ->
+    a *: mx_of n n [seq [seq Rdiv x a | x <- row] | row <- S] = mx_of n n S.
+Proof. exact: mx_of_divided. Qed.
+Print Assumptions C09_divided_matrix_meets_hypothesis.
+
+Theorem C09_source_cdf_time_rescaling :
+  forall (c : QArith_base.Q), QArith_base.Qlt Q0 c ->
+  forall (expm : seq (seq R) -> seq (seq R)),
+    (forall n A, wf n n A -> wf n n (expm A) /\ mx_of n n (expm A) = mexp (mx_of n n A)) ->
+  forall (n : nat) (Ss Ss' : seq (QArith_base.Q * seq (seq R))) (Slast Slast' : seq (seq R)),
+    scaled c n Ss Ss' -> Q2R c *: mx_of n n Slast' = mx_of n n Slast ->
+    List.Forall (fun x : QArith_base.Q * seq (seq R) => wf n n x.2) Ss ->
+    List.Forall (fun x : QArith_base.Q * seq (seq R) => wf n n x.2) Ss' ->
+    wf n n Slast -> wf n n Slast' ->
+    epochs_wf (seq (seq R)) Q0 Ss -> epochs_wf (seq (seq R)) Q0 Ss' ->
+  forall (alpha e : seq R) (ts : seq QArith_base.Q),
+    size e = n -> List.Forall (fun t => QArith_base.Qle Q0 t) ts ->
+    TreeHeightDistribution_cdf OpsR expm (length Slast') (all_epochs Ss' Slast') alpha e [seq QArith_base.Qmult c t | t <- ts]
+    = TreeHeightDistribution_cdf OpsR expm (length Slast) (all_epochs Ss Slast) alpha e ts.
+Proof. move=> c cpos expm es n Ss Ss' Slast Slast'; exact: source_cdf_time_rescaling. Qed.
+Print Assumptions C09_source_cdf_time_rescaling.
+
+Theorem C09_source_accumulate_time_rescaling :
+  forall (c : QArith_base.Q), QArith_base.Qlt Q0 c ->
+  forall (expm : seq (seq R) -> seq (seq R)),
+    (forall n A, wf n n A -> wf n n (expm A) /\ mx_of n n (expm A) = mexp (mx_of n n A)) ->
+  forall (n : nat) (Ss Ss' : seq (QArith_base.Q * seq (seq R))) (Slast Slast' : seq (seq R)),
+    scaled c n Ss Ss' -> Q2R c *: mx_of n n Slast' = mx_of n n Slast ->
+    List.Forall (fun x : QArith_base.Q * seq (seq R) => wf n n x.2) Ss ->
+    List.Forall (fun x : QArith_base.Q * seq (seq R) => wf n n x.2) Ss' ->
+    wf n n Slast -> wf n n Slast' ->
+    epochs_wf (seq (seq R)) Q0 Ss -> epochs_wf (seq (seq R)) Q0 Ss' ->
+  forall (regf : seq (seq R) -> R) (k : nat) (Rs : seq (seq R)) (alpha : seq R) (ts : seq QArith_base.Q),
+    regf (List.hd (None, Slast) (all_epochs Ss Slast)).2 <> 0 ->
+    regf (List.hd (None, Slast') (all_epochs Ss' Slast')).2 <> 0 ->
+    (forall i, (i < k)%N -> size (nth [::] Rs i) = n) ->
+    List.Forall (fun t => QArith_base.Qle Q0 t) ts ->
+    PhaseTypeDistribution_accumulate OpsR expm regf (length Slast') k (all_epochs Ss' Slast') Rs alpha [seq QArith_base.Qmult c t | t <- ts]
+    = Matrix.vscale OpsR (Q2R c ^+ k)
+        (PhaseTypeDistribution_accumulate OpsR expm regf (length Slast) k (all_epochs Ss Slast) Rs alpha ts).
+Proof. move=> c cpos expm es n Ss Ss' Slast Slast'; exact: source_accumulate_time_rescaling. Qed.
+Print Assumptions C09_source_accumulate_time_rescaling.
